@@ -1187,7 +1187,10 @@ def _check_declrules(case):
             ", ".join("%#04x %s" % lt for lt in locs))
         got, cls = "accept", None
         try:
-            cls = type("Decl%d" % n, (bases[d.get("base", "num")],), {"bank": bank, "locations": given})
+            # "names": a program that declares through a helper function (one class statement run per channel /
+            # per base address) produces several DISTINCT classes with one and the same name and module
+            cname = "Decl%d" % n if case.get("names") != "same" else "Channel"
+            cls = type(cname, (bases[d.get("base", "num")],), {"bank": bank, "locations": given})
         except loc.MemoryLocationOverlap:
             got = "overlap"
         except loc.LockingNotSupported:
@@ -1281,7 +1284,8 @@ def declrules_sweep():
     """Deterministic part of (f)."""
     banks = [(False, False), (False, True), (True, False), (True, True)]
     others = [t for t in MEMTYPES if t != "NVM_RW_L"]
-    B = lambda lk, lt, decls: {"op": "declrules", "has_lock": lk, "has_latch": lt, "decls": decls}    # noqa
+    B = lambda lk, lt, decls: {"op": "declrules", "has_lock": lk, "has_latch": lt, "decls": decls,    # noqa
+                               "names": "same" if (len(decls) + len(decls[0]["locs"]) + lk) % 2 else "own"}
     V = lambda locs, **kw: dict(locs=[list(x) for x in locs], **kw)                                    # noqa
     for lk, lt in banks:
         # a lockable location at every position of a value of every width 1..6, the rest of every other type
@@ -1324,8 +1328,8 @@ def declrules_strategy():
     value = st.tuples(st.lists(addr, min_size=1, max_size=6, unique=True), st.lists(types, min_size=6, max_size=6),
                       st.sampled_from(_BASES), st.booleans(), st.booleans()).map(
         lambda t: dict(locs=[[a, ty] for a, ty in zip(t[0], t[1])], base=t[2], single=t[3], as_list=t[4]))
-    return st.tuples(st.booleans(), st.booleans(), st.lists(value, min_size=1, max_size=7)).map(
-        lambda t: {"op": "declrules", "has_lock": t[0], "has_latch": t[1], "decls": t[2]})
+    return st.tuples(st.booleans(), st.booleans(), st.lists(value, min_size=1, max_size=7), st.sampled_from(["own", "own", "same"])).map(
+        lambda t: {"op": "declrules", "has_lock": t[0], "has_latch": t[1], "decls": t[2], "names": t[3]})
 
 
 def userlim_strategy():
